@@ -350,9 +350,16 @@ def _case(rng, name, quick):
         opts['saliency'] = pu.gen_saliency(rng, tuple(lead) + (N,), 'random')
     span = [(-100, 100), (-100, 100), (-3, 3), (90, 100), (-100, -90)][int(rng.integers(5))]
     gain = _gain(rng, tuple(lead) + (N,), *span) if name != 'vmfmm' else None
+    if gain is not None and rng.random() < 0.15:
+        # unit-norm frames with every gain modulus within 1 +- delta (delta 1e-8..6e-6): a normalisation skipped for
+        # "already normalised" input (np.allclose(norm, 1)) lets exactly these through
+        obs = obs / np.linalg.norm(obs, axis=-1, keepdims=True)
+        delta = 10.0 ** rng.uniform(-8, -5.2)
+        gain = (1.0 + delta * rng.uniform(-1, 1, size=tuple(lead) + (N,))) * np.exp(2j * np.pi * rng.random(tuple(lead) + (N,)))
+        span = ('near-one', 'near-one')
     emb_gain = None
     if name == 'vmfmm' or (name == 'vmfcacgmm' and rng.random() < 0.6):
-        emb_gain = np.abs(_gain(rng, tuple(lead) + (N,), *span))
+        emb_gain = np.abs(_gain(rng, tuple(lead) + (N,), *(span if span[0] != 'near-one' else (-3, 3))))
         if rng.random() < 0.25:
             # nearly unit-norm embeddings with gains within 1 +- 1e-4: a normalisation skipped for "already normalised"
             # input (np.allclose(norm, 1)) lets exactly these through
